@@ -1106,6 +1106,7 @@ type HCase struct {
 	Done   int      `json:"done"`
 	Reqs   int      `json:"reqs"`
 	Pages  int      `json:"pages"`
+	Engine bool     `json:"engine"`
 }
 
 func (c *HCmd) Coq() string {
@@ -1552,6 +1553,97 @@ func genHandshake(rng *vh.Rng) HCase {
 	return c
 }
 
+// genHandshakeEngine drives the same handshake, but the driver is ticked by the
+// event engine (TickingComponent: another tick only after a tick that reports
+// progress, or when a port notifies it), which is how it runs in a simulation.
+// Acknowledgements are delivered in bursts, so that several wait in the port.
+func genHandshakeEngine(rng *vh.Rng) HCase {
+	const log2 = 12
+	engine := sim.NewSerialEngine()
+	pt := vm.NewPageTable(log2)
+	d := driver.MakeBuilder().WithEngine(engine).WithPageTable(pt).WithLog2PageSize(log2).Build("Driver")
+	ngpu := 2 + rng.Intn(3)
+	r := &hrunner{d: d, pt: pt, ngpu: ngpu, outst: map[string][]uint64{}}
+	conn := &vh.StubConn{}
+	r.gpuPort = d.GetPortByName("GPU")
+	r.mmuPort = d.GetPortByName("MMU")
+	conn.PlugIn(r.gpuPort)
+	conn.PlugIn(r.mmuPort)
+	for g := 0; g < ngpu; g++ {
+		cp := sim.NewPort(nil, 1, 1, fmt.Sprintf("GPU%d.CP", g+1))
+		pmc := sim.NewPort(nil, 1, 1, fmt.Sprintf("GPU%d.PMC", g+1))
+		r.cps, r.pmcs = append(r.cps, cp), append(r.pmcs, pmc)
+		d.RegisterGPU(cp, driver.DeviceProperties{CUCount: 4, DRAMSize: 64 << log2})
+		d.RemotePMCPorts = append(d.RemotePMCPorts, pmc)
+	}
+	ctx := d.Init()
+	d.SelectGPU(ctx, 1)
+	ptr := d.AllocateMemory(ctx, 2<<log2)
+	var acc []uint64
+	for g := 1; g <= ngpu; g++ {
+		if g <= 2 || rng.Bool() {
+			acc = append(acc, uint64(g))
+		}
+	}
+	q := &HReq{Src: 50, Accessing: acc, Groups: [][]uint64{{2, uint64(ptr), uint64(ptr) + 1<<log2}}, Host: 1,
+		PID: uint64(ctx.VerifPID()), PageSize: 1 << log2, Top: true}
+	c := HCase{NGPU: ngpu, Reqs: 1, Pages: 2, Engine: true}
+	crashed := false
+	run := func(e HEvent) {
+		if crashed {
+			return
+		}
+		crashed = r.apply(&e)
+		c.Events = append(c.Events, e)
+	}
+	run(HEvent{E: "dm", Req: q})
+	kinds := []string{"Drain", "Shoot", "Mig", "Restart", "RdmaRestart"}
+	for round := 0; round < 60 && !crashed; round++ {
+		busy := false
+		func() {
+			defer func() {
+				if recover() != nil {
+					crashed = true
+				}
+			}()
+			engine.Run() // every scheduled tick
+		}()
+		for r.gpuPort.PeekOutgoing() != nil && !crashed {
+			run(HEvent{E: "tg"})
+			busy = true
+		}
+		if r.mmuPort.PeekOutgoing() != nil {
+			run(HEvent{E: "tm"})
+			busy = true
+		}
+		// a burst: every outstanding command is answered before the driver runs again
+		for _, k := range kinds {
+			for len(r.outst[k]) > 0 {
+				g := r.outst[k][0]
+				r.outst[k] = r.outst[k][1:]
+				run(HEvent{E: "dg", Rsp: k, G: g})
+				busy = true
+			}
+		}
+		if !busy {
+			break
+		}
+	}
+	if crashed {
+		r.flag("the driver panicked during a well-formed migration handshake")
+	} else if r.done != 1 {
+		stuck := "nothing"
+		if m := r.gpuPort.PeekIncoming(); m != nil {
+			stuck = fmt.Sprintf("%T", m)
+		}
+		r.flag(fmt.Sprintf("engine-driven handshake went quiet without answering the MMU; waiting in the driver's GPU port: %s", stuck))
+	}
+	c.Done = r.done
+	c.Viol = r.viol
+	c.Coq = ""
+	return c
+}
+
 func whoCoq(w int) string {
 	if w == 0 {
 		return "PA"
@@ -1635,6 +1727,9 @@ func main() {
 		hcs := []HCase{}
 		for i := 0; i < *hsN; i++ {
 			hcs = append(hcs, genHandshake(rng.Fork()))
+			if i%8 == 0 {
+				hcs = append(hcs, genHandshakeEngine(rng.Fork()))
+			}
 		}
 		data, _ := json.Marshal(hcs)
 		if err := os.WriteFile(*hsOut, data, 0o644); err != nil {
